@@ -10,7 +10,7 @@ pub(crate) fn function_string(
 ) -> SassResult<String> {
     let args = args
         .iter()
-        .map(|arg| arg.to_css_string(span, visitor.options.is_compressed()))
+        .map(|arg| arg.to_css_string(span, false))
         .collect::<SassResult<Vec<_>>>()?
         .join(", ");
 
@@ -27,8 +27,6 @@ fn inner_rgb_2_arg(
     let color = args.get_err(0, "color")?;
     let alpha = args.get_err(1, "alpha")?;
 
-    let is_compressed = visitor.options.is_compressed();
-
     if color.is_var() {
         return Ok(Value::String(
             function_string(name, &[color, alpha], visitor, args.span())?,
@@ -41,10 +39,10 @@ fn inner_rgb_2_arg(
                     format!(
                         "{}({}, {}, {}, {})",
                         name,
-                        color.red().to_string(is_compressed),
-                        color.green().to_string(is_compressed),
-                        color.blue().to_string(is_compressed),
-                        alpha.to_css_string(args.span(), is_compressed)?
+                        color.red().to_string(false),
+                        color.green().to_string(false),
+                        color.blue().to_string(false),
+                        alpha.to_css_string(args.span(), false)?
                     ),
                     QuoteKind::None,
                 ));
@@ -63,10 +61,10 @@ fn inner_rgb_2_arg(
             format!(
                 "{}({}, {}, {}, {})",
                 name,
-                color.red().to_string(is_compressed),
-                color.green().to_string(is_compressed),
-                color.blue().to_string(is_compressed),
-                alpha.to_css_string(args.span(), is_compressed)?
+                color.red().to_string(false),
+                color.green().to_string(false),
+                color.blue().to_string(false),
+                alpha.to_css_string(args.span(), false)?
             ),
             QuoteKind::None,
         ));
@@ -399,7 +397,7 @@ pub(crate) fn mix(mut args: ArgumentResult, visitor: &mut Visitor) -> SassResult
             return Err((
                 format!(
                     "$weight: {} is not a number.",
-                    v.to_css_string(args.span(), visitor.options.is_compressed())?
+                    v.to_css_string(args.span(), false)?
                 ),
                 args.span(),
             )
